@@ -138,6 +138,12 @@ type kvRun struct {
 	lastTok string
 	afterRe bool
 	tainted [3]bool // a tenant whose reads already differed once is not audited further (no cascades)
+	// stores that load a tenant's state LAZILY (saved queries: InitUsq loads org 0 only, every other org on its
+	// first request): a read-back of a tenant that no operation has addressed since the last restart would itself
+	// be that first request and hide what a WRITE as the first request does.  For such stores only the tenants in
+	// `only` are read back after an operation; every tenant is read back before a restart and at the end of the line.
+	only       *[3]bool
+	firstTouch bool // the operation just executed was its tenant's first since a restart
 }
 
 func (r *kvRun) fail(class, msg string) {
@@ -186,6 +192,9 @@ func kvDiff(want, got map[string]string) (class, key, msg string) {
 // audit: every tenant is read back and compared with the shadow (the property statement itself)
 func (r *kvRun) audit(st kvStore, when string) {
 	for t := range kvOrgs {
+		if r.only != nil && !r.only[t] {
+			continue
+		}
 		got, err := st.readAll(t) // always read (a read may have side effects the model mirrors), compare unless tainted
 		if r.tainted[t] {
 			continue
@@ -205,6 +214,8 @@ func (r *kvRun) audit(st kvStore, when string) {
 			class = "alias-listed-without-index" // the alias' inner map stays behind, empty
 		case r.afterRe:
 			class += "-after-restart"
+		case r.firstTouch && r.lastOp.t == t:
+			class += "-by-first-request-after-restart" // e.g. a save that starts from an empty map and rewrites the file
 		case r.lastOp.form != 'R' && r.lastOp.t != t:
 			class = "other-tenant-disturbed"
 		case r.lastTok != "ok" && !strings.HasPrefix(r.lastTok, "ok:") && strings.ContainsRune("cudrfx", rune(r.lastOp.kind)):
@@ -295,11 +306,19 @@ func execKV(line string) Result {
 	var toks []string
 	tenants := map[int]bool{}
 	writes, reads, restarts := 0, 0, 0
+	lazy := false
+	if l, ok := st.(interface{ lazyTenants() bool }); ok {
+		lazy = l.lazyTenants()
+	}
+	var touched [3]bool // tenants addressed by an operation since the last restart (lazy stores)
+	firstWriteAfterRestart := false
 	for _, op := range ops {
 		run.lastOp = op
 		run.afterRe = false
+		run.firstTouch = false
 		if op.form == 'R' {
 			restarts++
+			run.only = nil
 			run.audit(st, "before restart")
 			if op.kind == 'G' { // graceful shutdown: what cmd/startup.ShutdownSiglensServer runs for this store, then a new process
 				if err := st.(interface{ shutdown() error }).shutdown(); err != nil {
@@ -311,11 +330,23 @@ func execKV(line string) Result {
 				return Result{Out: "harness-error:restart:" + err.Error()}
 			}
 			run.afterRe = true
-			run.audit(st, "after restart")
+			if lazy {
+				touched = [3]bool{} // no read-back here: it would load every tenant
+			} else {
+				run.audit(st, "after restart")
+			}
 			toks = append(toks, string(op.kind))
 			continue
 		}
 		tenants[op.t] = true
+		if lazy {
+			run.firstTouch = restarts > 0 && !touched[op.t]
+			if run.firstTouch && op.t != 0 && (op.kind == 'c' || op.kind == 'u') {
+				firstWriteAfterRestart = true
+			}
+			touched[op.t] = true
+			run.only = &touched
+		}
 		tok := st.apply(op)
 		run.lastTok = tok
 		toks = append(toks, tok)
@@ -328,6 +359,13 @@ func execKV(line string) Result {
 			reads++
 		}
 		run.audit(st, "after "+string(op.kind))
+	}
+	if lazy {
+		run.only, run.afterRe, run.firstTouch = nil, false, false
+		run.audit(st, "at the end of the line")
+		if firstWriteAfterRestart {
+			res.Tags = append(res.Tags, "write-is-first-request-of-org≠0-after-restart")
+		}
 	}
 	res.Out = strings.Join(toks, " ")
 	res.Nontrivial = len(ops) >= 3 && writes > 0 && reads > 0
@@ -568,6 +606,34 @@ func genKVLine(r *rand.Rand, store string) string {
 			}
 		}
 	}
+	if store == "usq" && r.Intn(3) == 0 {
+		// by construction: a tenant ≠ org 0 with stored queries, a restart, and that tenant's FIRST request after it
+		// is a save / delete (not a read); other tenants may come first
+		t := 1 + r.Intn(2)
+		for k := 1 + r.Intn(3); k > 0; k-- {
+			ops = append(ops, fmt.Sprintf("c%d.%s=%s", t, kvHex(kvPick(r, pool)), kvHex(kvPick(r, kvVals))))
+		}
+		if r.Intn(3) == 0 {
+			ops = append(ops, fmt.Sprintf("c0.%s=%s", kvHex(kvPick(r, pool)), kvHex(kvPick(r, kvVals))))
+		}
+		ops = append(ops, "R")
+		if r.Intn(3) == 0 {
+			if r.Intn(2) == 0 { // org 0 (loaded by InitUsq) comes first
+				ops = append(ops, fmt.Sprintf("c0.%s=%s", kvHex(kvPick(r, pool)), kvHex("v9")))
+			} else {
+				ops = append(ops, "l0")
+			}
+		}
+		if r.Intn(4) == 0 {
+			ops = append(ops, fmt.Sprintf("d%d.%s", t, kvHex(kvPick(r, pool))))
+		} else {
+			ops = append(ops, fmt.Sprintf("c%d.%s=%s", t, kvHex(kvPick(r, kvNames)), kvHex(kvPick(r, kvVals))))
+		}
+		ops = append(ops, fmt.Sprintf("l%d", t))
+		if r.Intn(2) == 0 {
+			ops = append(ops, "R", fmt.Sprintf("l%d", t))
+		}
+	}
 	return "kv " + store + " " + strings.Join(ops, " ")
 }
 
@@ -638,7 +704,10 @@ func (s *kvUsq) restart() error {
 	return usq.InitUsq()
 }
 
-func (s *kvUsq) shadowOf(t int) map[string]string     { return s.shadow[t] }
+func (s *kvUsq) shadowOf(t int) map[string]string { return s.shadow[t] }
+
+// InitUsq loads org 0 only; every other org is loaded by its first request (readSavedQueries)
+func (s *kvUsq) lazyTenants() bool { return true }
 
 const kvUsqDescPrefix = "description of "
 
